@@ -169,6 +169,32 @@ func ruleRESET(c *Ctx, pkgs ...string) {
 							}
 						}
 					}
+					// the zeroed prefix covers what is read: `for i := 0; i < B` vs reads of s[:B]
+					if all {
+						zb := ""
+						for _, ins := range z.loop.Header.Instrs {
+							if ifi, ok := ins.(*ssa.If); ok {
+								if l, op, rr, ok := cmpNormV(ifi.Cond, true); ok {
+									if _, isPhi := stripConv(l).(*ssa.Phi); isPhi {
+										switch op {
+										case "<":
+											zb = vpath(rr)
+										case "<=":
+											zb = "(" + vpath(rr) + " + 1)"
+										}
+									}
+								}
+							}
+						}
+						for _, rd := range reads {
+							if sl, ok := rd.(*ssa.Slice); ok && sl.High != nil && zb != "" {
+								if hb := vpath(sl.High); hb != zb {
+									all = false
+									why = fmt.Sprintf("the zeroing loop clears %s[0:%s] but %s[:%s] is read back", nm, normalizePhi(zb), nm, normalizePhi(hb))
+								}
+							}
+						}
+					}
 					if all {
 						okZ = true
 						break
